@@ -50,6 +50,9 @@ type codec struct {
 	accept func() []namedBytes
 	// sig, if set, gives the layout of a seed; quick runs mutate one seed per layout.
 	sig func(seed []byte) string
+	// group names the decoder family in keys of findings that are about the
+	// decoder rather than the value (allocation, non-termination); default name.
+	group string
 	// maxSeed overrides the length bound of seeds used for mutation.
 	maxSeed int
 	// maxSeeds bounds the number of seeds (quick, thorough); 0 = all.
@@ -308,6 +311,9 @@ func semEq(a, b reflect.Value, path string, depth int) (bool, string) {
 				continue
 			}
 			if ok, p := semEq(a.Field(i), b.Field(i), path+"."+fn, depth+1); !ok {
+				if !strings.Contains(p, " @") {
+					p += " @" + tn + "." + fn // innermost struct field that differs
+				}
 				return false, p
 			}
 		}
@@ -322,6 +328,25 @@ func semEq(a, b reflect.Value, path string, depth int) (bool, string) {
 }
 
 // ---- small helpers ---------------------------------------------------------------
+
+// ownerOf extracts the "type.field" suffix semEqual attaches to a difference.
+func ownerOf(path string) string {
+	if i := strings.Index(path, " @"); i >= 0 {
+		o := path[i+2:]
+		if j := strings.IndexAny(o, "; "); j >= 0 {
+			o = o[:j]
+		}
+		return o
+	}
+	return ""
+}
+
+func (c *codec) groupName() string {
+	if c.group != "" {
+		return c.group
+	}
+	return c.name
+}
 
 func hx(b []byte) string { return hex.EncodeToString(b) }
 
